@@ -44,7 +44,8 @@ class Loop:
     """Loop contract: invariant, extra havoc targets, variant."""
 
     def __init__(self, inv, modifies=(), decreases=None, name=None, lemmas=None, at_end=None, no_variant=False,
-                 havoc_as=None):
+                 havoc_as=None, at_start=None):
+        self.at_start = at_start         # ghost code at the start of the arbitrary iteration (snapshots for at_end)
         self.havoc_as = havoc_as or {}   # local name -> factory(it) for object-valued loop-carried locals
         self.inv = inv
         self.modifies = list(modifies)
@@ -562,6 +563,8 @@ class Interp:
                     raise PathEnd()
                 v0 = spec.decreases(st) if spec.decreases else None
             self.path.results.cover(f"{self.target}#cover:{lname}:body")
+            if spec.at_start is not None:
+                spec.at_start(st)
             try:
                 self.exec_block(node.body, frame)
             except _Continue:
@@ -658,9 +661,17 @@ class Interp:
                     v.sym = z3.Const(self.fresh("seq"), z3.SeqSort(z3.StringSort()))
                     v.kind = "str"
                     return
+                if kind != "any":
+                    # a declared element kind: what is in the list at loop entry must be storable as that kind
+                    if v.is_sym() and v.kind != kind:
+                        self.unsupported("declared element kind does not hold at loop entry")
+                    if not v.is_sym():
+                        for x in v.items:
+                            v2 = PList([], kind=kind)
+                            self.unwrap_elem(v2, x)
                 v.items = None
                 v.sym = z3.Const(self.fresh("seq"), z3.SeqSort(z3.IntSort()))
-                v.kind = "any"
+                v.kind = kind
             elif isinstance(v, PDict):
                 if getattr(v, "glob", False) or v.is_sym():
                     return
@@ -670,8 +681,8 @@ class Interp:
                 v.key_kind = "str"
                 v.val_sort = "any"
             elif isinstance(v, Obj) and not getattr(v, "glob", False):
-                for x in list(v.fields.values()):
-                    visit(x, depth + 1)
+                for fname, x in list(v.fields.items()):
+                    visit(x, depth + 1, local_kinds.get("." + fname, "any"))
         for name, v in list(frame.locals.items()):
             if names is not None and name not in names:
                 continue
